@@ -20,8 +20,13 @@ def glit(n, edges):
     return clist(gen.rows_of(n, edges), lambda r: clist(r, cnat))
 
 
+# storage dtype -> the weight every edge carries (the counts read only the pattern; the symmetrisation A + A^T in front of the
+# kernels must not lose an edge whatever the weight: 128 + 128 wraps to 0 in uint8, 32768 + 32768 in uint16)
+DTYPE_WEIGHT = {'int': 1, 'bool': 1, 'float': 1, 'uint8': 128, 'uint16': 32768, 'int32': 2 ** 30, 'float32': 0.5, 'int8': 64}
+
+
 def mspec(n, edges, dtype='int'):
-    return {'shape': [n, n], 'coo': [[i, j, 1] for (i, j) in edges], 'dtype': dtype, 'fmt': 'csr'}
+    return {'shape': [n, n], 'coo': [[i, j, DTYPE_WEIGHT[dtype]] for (i, j) in edges], 'dtype': dtype, 'fmt': 'csr'}
 
 
 # ---------------------------------------------------------------------------------------------
@@ -188,7 +193,7 @@ def run(ctx, scratch):
         c['mks'] = [k for k in ks if omega is None or k <= omega + 2]
         c['order'], c['core'] = peeling(n, adj)
         c['tri'] = cliques_bruteforce(n, adj, 3)
-        c['dtype'] = rng.choice(['int', 'bool', 'float'])
+        c['dtype'] = rng.choice(['int', 'bool', 'float', 'int', 'bool', 'float', 'uint8', 'uint16', 'int32', 'float32', 'int8'])
 
     tri_dir = []   # directed stream for count_triangles
     for _ in range(120 if quick else 800):
